@@ -161,3 +161,8 @@ PROPS['C03']['eb'] = [EB_WIRE_IN]
 PROPS['C05']['eb'] = [EB_INBOUND, _eb_engine(thorough_only=True)]
 PROPS['C07']['eb'] = [_eb_engine()]
 PROPS['C11']['eb'].append(EB_WIRE_IN)
+
+EB_ALIAS = {'name': 'alias', 'crate': 'gneiss-mqtt', 'module_dir': 'gneiss_mqtt', 'filters': ['alias::'], 'tests': ['outbound_alias_resolvers_never_mislead_the_server'], 'timeout': 3000}
+EB_WS = {'name': 'ws', 'crate': 'gneiss-mqtt', 'module_dir': 'gneiss_mqtt', 'features': ['threaded-websockets'], 'raw_filters': ['verif_bounded_ws'], 'tests': ['ws_wrapper_read_concatenates_payloads'], 'timeout': 3000}
+PROPS['C17']['eb'] = [EB_ALIAS]
+PROPS['C13']['eb'] = [EB_WS]
